@@ -331,7 +331,122 @@ def exec_stdio_case(ctx, case: Dict[str, Any]) -> None:
     ctx.record(case, shape=shape, cls=f"stdio:{form}", sample={"case": case, "outcomes": shape})
 
 
+def exec_stdio_routed_case(ctx, case: Dict[str, Any]) -> None:
+    """The per-request routing API of the stdio client (new_request_stream + send_json): n callers per connection,
+    one or two connections alive in the process using the very same ids, children answering in a permuted order."""
+    import importlib
+    import json
+    import anyio
+    from chuk_mcp.protocol.messages.json_rpc_message import create_request
+    from chuk_mcp.transports.stdio.parameters import StdioParameters
+    from vf.recorders import OpenProcessPatch, ScriptedProcess
+    SC = importlib.import_module("chuk_mcp.transports.stdio.stdio_client")
+    n, perm, conns = case["n"], case["perm"], case["connections"]
+
+    def factory(command, **kw):
+        p = ScriptedProcess([], hold_open=True)
+        orig = p.stdin.send
+        st = {"buf": b"", "reqs": []}
+
+        async def send(data):
+            await orig(data)
+            st["buf"] += data
+            while b"\n" in st["buf"]:
+                line, st["buf"] = st["buf"].split(b"\n", 1)
+                try:
+                    req = json.loads(line)
+                except Exception:
+                    continue
+                if "id" in req and "method" in req:
+                    st["reqs"].append(req)
+            if len(st["reqs"]) == n:
+                reqs, st["reqs"] = st["reqs"], []
+                for k in perm:
+                    r = reqs[k]
+                    p.feed((json.dumps({"jsonrpc": "2.0", "method": "notifications/message", "params": {"level": "info"}}) + "\n"
+                            + json.dumps({"jsonrpc": "2.0", "id": r["id"], "result": {"tag": r["params"]["tag"]}}) + "\n").encode())
+        p.stdin.send = send
+        return p
+
+    async def main():
+        outcomes: Dict[str, Any] = {}
+
+        async def drain(stream):
+            try:
+                async for _ in stream:
+                    pass
+            except Exception:
+                pass
+
+        async def caller(name, client, i):
+            rid: Any = str(i + 1) if case["ids"] == "str" else i + 1
+            recv = client.new_request_stream(str(rid))
+            await client.send_json(create_request("tools/call", {"tag": f"{name}-caller-{i}"}, id=rid))
+            with anyio.move_on_after(TIMEOUT) as scope:
+                try:
+                    outcomes[f"{name}-{i}"] = ("got", await recv.receive())
+                except BaseException as e:  # noqa
+                    if isinstance(e, (KeyboardInterrupt, SystemExit, asyncio.CancelledError)):
+                        raise
+                    outcomes[f"{name}-{i}"] = ("raise", e)
+            if scope.cancelled_caught:
+                outcomes[f"{name}-{i}"] = ("nothing", None)
+
+        async def connection(name, started, go):
+            async with SC.StdioClient(StdioParameters(command=f"scripted-{name}")) as client:
+                d = asyncio.create_task(drain(client.get_streams()[0]), name=f"vf-drain-{name}")
+                started.set()
+                await go.wait()
+                tasks = []
+                for i in range(n):
+                    tasks.append(asyncio.create_task(caller(name, client, i), name=f"{name}-caller-{i}"))
+                    await asyncio.sleep(0.01)
+                await asyncio.gather(*tasks)
+                d.cancel()
+
+        with OpenProcessPatch(factory):
+            go = asyncio.Event()
+            conn_tasks = []
+            for c in range(conns):
+                started = asyncio.Event()
+                conn_tasks.append(asyncio.create_task(connection("AB"[c], started, go), name=f"conn-{c}"))
+                await started.wait()
+            go.set()
+            await asyncio.gather(*conn_tasks)
+        return outcomes
+
+    try:
+        outcomes, _ = run_virtual(main, max_iterations=500_000)
+    except HangDetected as e:
+        ctx.violation("hang", f"stdio routed: {e}", case)
+        ctx.record(case, shape="hang")
+        return
+    ctx.count("stdio_sessions")
+    ctx.count("routed_calls", len(outcomes))
+    shape = []
+    for key in sorted(outcomes):
+        kind, val = outcomes[key]
+        name, i = key.split("-")
+        own = f"{name}-caller-{i}"
+        if kind == "got":
+            res = getattr(val, "result", None)
+            if not (isinstance(res, dict) and res.get("tag") == own):
+                ctx.violation("cross_talk", f"per-request routing, {conns} connection(s): {own} was handed {res!r}", case)
+        else:
+            ctx.violation("response_lost_in_transport", f"per-request routing, {conns} connection(s): {own}'s answer was sent "
+                          f"in time, yet its request stream gave {kind} {val!r}", case)
+        shape.append(kind)
+    ctx.record(case, shape=shape, nontrivial=True, cls=f"stdio:routed:{conns}", sample={"case": case, "outcomes": shape})
+
+
 def run(ctx):
+    for n in (2, 3):
+        for perm in itertools.permutations(range(n)):
+            for conns in (1, 2):
+                for ids in ("str", "int"):
+                    case = {"n": n, "perm": list(perm), "connections": conns, "ids": ids, "via": "stdio_routed"}
+                    if ctx.mine():
+                        exec_stdio_routed_case(ctx, case)
     for n in (2, 3, 4):
         for form in ("lines", "batch", "batch_junk_first", "batch_junk_between", "batch_all_junk_first"):
             case = {"n": n, "form": form, "via": "stdio"}
@@ -347,6 +462,10 @@ def run(ctx):
 
 
 def replay(ctx, case):
+    if case.get("via") == "stdio_routed":
+        exec_stdio_routed_case(ctx, case)
+        ctx.record({"x": 1}, shape=1)
+        return
     if case.get("via") == "stdio":
         exec_stdio_case(ctx, case)
         ctx.record({"x": 1}, shape=1)
